@@ -252,6 +252,50 @@ def overlong_run(args):
     return dict(t, observed="overlong", sentlen=len(pw))
 
 
+def cut_run(args):
+    """The PASS line is cut short: no line terminator (or only the CR) and then the stream ends - closed, reset, or the server shuts
+    down.  The server reads a partial line at end of stream; whatever it makes of it, the password is not logged."""
+    pw, tail, how = args
+    cap = Cap()
+    root = logging.getLogger()
+    olds = (root.level, logging.getLogger("aioftp.server").level)
+    root.addHandler(cap)
+    root.setLevel(logging.DEBUG)
+    logging.getLogger("aioftp.server").setLevel(logging.DEBUG)
+    users = [{"id": "u1", "login": "u1", "pw": pw, "max": 0, "perms": [], "home": [], "base": ["A"]}]
+    cfg = gen.std_cfg(ns=1, users=users)
+
+    async def sc(factory, w):
+        c = factory()
+        await c.connect("127.0.0.1", W.CTL_PORT)
+        await c.stream.write(b"USER u1\r\n")
+        await c.command(None, ("2xx", "3xx", "5xx"))
+        try:
+            await c.stream.write(("PASS " + pw + tail).encode("utf-8"))
+            for _ in range(4):
+                await asyncio.sleep(0)
+            if how == "close":
+                c.stream.writer.close()
+            elif how == "reset":
+                c.stream.writer.transport.abort()
+            else:
+                await w.server.close()
+            await asyncio.sleep(1)
+        except OSError:
+            pass
+        return True
+
+    try:
+        out = clientdrv.run_clients(cfg, {"d": [["A"]], "f": []}, {1: sc})
+    finally:
+        root.removeHandler(cap)
+        root.setLevel(olds[0])
+        logging.getLogger("aioftp.server").setLevel(olds[1])
+    if out["crash"]:
+        return {"crash": out["crash"]}
+    return dict(tokenise(cap, pw), observed="cut", sentlen=len(pw))
+
+
 def scripted_run(args):
     """Client.login against a server that is not aioftp: it asks for password and account in any order, any number of times
     (331 / 332 in every sequence of up to three), then accepts, refuses, asks for something unknown or hangs up."""
@@ -331,6 +375,19 @@ def run(tier, seed):
                       "outcome": "scripted", "observed": a["observed"]})
         straces.append([{k2: v for k2, v in e.items() if k2 != "exc"} for e in a["trace"]])
     chk.cov["evaluations"] += 2 * len(splan)
+    # PASS lines that end with the stream instead of a line terminator
+    cplan = [(cls, pw, twin, tail, how) for cls, (pw, twin) in PASSWORDS.items() for tail in ("", "\r") for how in ("close", "reset", "server-close")]
+    if tier == "quick":
+        cplan = cplan[::2]
+    cres = corecheck.pool().map(cut_run, [(x, tail, how) for cls, pw, twin, tail, how in cplan for x in (pw, twin)], chunksize=4)
+    for k, (cls, pw, twin, tail, how) in enumerate(cplan):
+        a, b = cres[2 * k], cres[2 * k + 1]
+        if a["crash"] or b["crash"]:
+            raise RuntimeError("harness failure: %s" % (a["crash"] or b["crash"]))
+        plan.append((cls, pw, twin, "PASS", "cut", False, "tail=%r %s" % (tail, how)))
+        cases.append({"records": a["records"], "pwlen": len(pw), "sentlen": a["sentlen"], "msgs": a["msgs"], "twin_msgs": b["msgs"],
+                      "outcome": "cut", "observed": a["observed"]})
+    chk.cov["evaluations"] += 2 * len(cplan)
     # PASS lines beyond the server's line limit, cut in pieces
     oplan = []
     for n in (66000, 70000, 140000):
